@@ -295,7 +295,10 @@ def rand_ir(rng, p_bad):
     rs = [rand_ir_ruleset(rng, p_bad) for _ in range(rng.choice([1, 1, 2, 3, 0 if rng.random() < 0.1 else 1]))]
     hooks = []
     if rng.random() < 0.4:
-        hooks.append({"name": rng.choice(["dummy_prekill_hook"] * 4 + ["nope", "", "exists"]), "args": rng.choice([{}, {"cgroup": "a/*,b"}, {"cgroup": "x", "bogus": "1"}])})
+        if rng.random() < max(p_bad, 0.0) * 1.5:
+            hooks.append({"name": rng.choice(["dummy_prekill_hook", "nope", "", "exists"]), "args": rng.choice([{}, {"cgroup": "a/*,b"}, {"cgroup": "x", "bogus": "1"}])})
+        else:
+            hooks.append({"name": "dummy_prekill_hook", "args": rng.choice([{}, {"cgroup": "a/*,b"}, {"cgroup": "/"}])})
     return {"rulesets": rs, "prekill_hooks": hooks}
 
 
